@@ -117,8 +117,29 @@ func pppoeStateName(s *pppoe.Server) string {
 const srvSel = 8
 
 func pppoeServerTarget(name string, etherType uint16, build func(*rapid.T) *bld, consts [][]byte, avoid func([]byte) []byte, avoidSigs []string) {
+	var dictSeeds func() [][]byte
+	if etherType == pppoe.EtherTypePPPoEDiscovery {
+		dictSeeds = func() [][]byte {
+			// every integer literal of the package (and the boundary values) as vendor id of a Vendor-Specific tag x
+			// hostile sub-tag lists, in PADI and PADR
+			var o [][]byte
+			seen := map[uint64]bool{}
+			for _, v := range append(dictFor("pppoe").ints(32), boundaries...) {
+				if seen[v] {
+					continue
+				}
+				seen[v] = true
+				for _, sh := range innerShapes(1, 1, false) {
+					vt := tag(0x0105, append(be32(v), sh...))
+					o = append(o, withSel(discPkt(0x09, 0, tag(0x0101, nil), vt), 0, 0, 0, 0, 0, 0, 0, 0),
+						withSel(discPkt(0x19, 0, tag(0x0101, nil), tag(0x0104, bytes.Repeat([]byte{7}, 16)), vt), 0, 1, 0, 0, 0, 0, 0, 0))
+				}
+			}
+			return o
+		}
+	}
 	register(&target{
-		name: name, nsel: srvSel, avoid: avoid, avoidSigs: avoidSigs,
+		name: name, nsel: srvSel, avoid: avoid, avoidSigs: avoidSigs, dictSeeds: dictSeeds,
 		run: func(data []byte, c *caseInfo) {
 			sel, payload := split(data, srvSel)
 			state := int(sel[0]) % len(srvStates)
@@ -186,7 +207,7 @@ func pppoeServerTarget(name string, etherType uint16, build func(*rapid.T) *bld,
 					lastGenClass += "+kf-shape"
 				}
 			}
-			st := byte(drawWeighted(rt, []int{8, 16, 16, 20, 26, 14}, "state"))
+			st := byte(drawWeighted(rt, []int{8, 15, 15, 19, 25, 18}, "state"))
 			// most frames come from the session's owner (anything else is dropped at the MAC check)
 			dl := bits(rt, "delivery", 50, 15, 30)
 			return withSel(p, append([]byte{st, dl}, genSrvShape(rt)...)...)
